@@ -1633,37 +1633,40 @@ def register_topology_features(R, H):
 
         return f
 
-    def dotz(u, w):
-        return sum((to_z3(a, "real") * to_z3(b, "real") for a, b in zip(u.items, w.items)), z3.RealVal(0))
+    def arm_vector(t, a, b):
+        """coordinate differences P_a - P_b read from the tree's columns (PROOF STEPS only: the clauses never touch coordinates)"""
+        nm = t.fields["names"]
+        return [to_z3(col(t, c).items[a], "real") - to_z3(col(t, c).items[b], "real") for c in (nm.x, nm.y, nm.z)]
 
-    def polar_steps(E, g, tag, u, w, b, a, c):
-        """proof steps for one pair of arms u = P_a - P_b, w = P_c - P_b held by the code as coordinate vectors:
-        2 u.w = d2(a,b) + d2(c,b) - d2(a,c) (a ring identity), hence the code's cosine u.w / (|u||w|) is the spec's"""
+    def polar_steps(E, g, t, tag, b, a, c):
+        """proof steps for the arms u = P_a - P_b, w = P_c - P_b: 2 u.w = d2(a,b) + d2(c,b) - d2(a,c) (a ring identity), hence
+        the cosine u.w / (|u||w|) -- the term the code computes -- is the cosine written through the three distances"""
         ta, I = g.ta, z3.IntVal
-        dz = dotz(u, w)
+        dz = sum((p * q for p, q in zip(arm_vector(t, a, b), arm_vector(t, c, b))), z3.RealVal(0))
         E.prove(f"{tag}/step/polarisation-identity", 2 * dz == d2(ta, I(a), I(b)) + d2(ta, I(c), I(b)) - d2(ta, I(a), I(c)), "proof step")
         na, nc, nac = g.d(a, b), g.d(c, b), g.d(a, c)
         P = na * na + nc * nc - nac * nac
         E.prove(f"{tag}/step/dot-product-through-the-three-distances", 2 * dz == P, "proof step")
         lemlib.use(E, "half-quotient", dz, P, na * nc)
         cosv = cos_between(g, b, a, c)
-        E.prove(f"{tag}/step/cosine-of-the-code-is-the-cosine-of-the-three-distances", z3.Implies(na * nc != 0, dz / (na * nc) == cosv), "proof step")
+        E.prove(f"{tag}/step/cosine-of-the-arms-is-the-cosine-of-the-three-distances", z3.Implies(na * nc != 0, dz / (na * nc) == cosv), "proof step")
         clipped = z3.If(cosv < -1, z3.RealVal(-1), z3.If(cosv > 1, z3.RealVal(1), cosv))
         lemlib.use(E, "degrees-times-pi", ARCCOS(clipped), to_z3(E.pi_const(), "real"))
 
     def polar_hint(nm, remote, with_parent=False):
         def h(E, vars):
-            if not all(isinstance(vars.get(k), NArr) for k in ("v1", "v2")) or not isinstance(vars.get("bif"), Obj_):
+            if not isinstance(vars.get("bif"), Obj_):
                 return
             tp, b, ends = arms(vars, remote)
             if ends is None:
                 return
-            g = Geo(E, vars["bif"].fields["attach"])
+            t = vars["bif"].fields["attach"]
+            g = Geo(E, t)
             if not with_parent:
-                polar_steps(E, g, f"LMeasure.{nm}", vars["v1"], vars["v2"], b, ends[0], ends[1])
-            elif isinstance(vars.get("v"), NArr) and tp.pids[b] != -1:
-                polar_steps(E, g, f"LMeasure.{nm}/arm1", vars["v"], vars["v1"], b, tp.pids[b], ends[0])
-                polar_steps(E, g, f"LMeasure.{nm}/arm2", vars["v"], vars["v2"], b, tp.pids[b], ends[1])
+                polar_steps(E, g, t, f"LMeasure.{nm}", b, ends[0], ends[1])
+            elif tp.pids[b] != -1:
+                polar_steps(E, g, t, f"LMeasure.{nm}/arm1", b, tp.pids[b], ends[0])
+                polar_steps(E, g, t, f"LMeasure.{nm}/arm2", b, tp.pids[b], ends[1])
 
         return h
 
